@@ -18,7 +18,7 @@ meta = {
  "missed_by_first_version_of_check": old.get('missed_by_first_version_of_check', not fired),
  "confirmed": "tools/confirm_seed.sh in a scratch worktree of /repo HEAD (removed afterwards): (a) go test -vet=off -count=1 ./... passes with patch.diff applied, (b) the demo (demo_test.go.txt, copied into the package directory named in its header) fails with the patch, (c) passes without it",
  "checked_with": f"python3 tools/selftest.py --seeded --only {sid}",
- "origin": "independent sub-agent given only the property text and its own worktree (round %d)" % (((int(sid.split('-')[1]) - 1) // 3 + 1) if int(sid.split('-')[1]) <= 15 else (6 if int(sid.split('-')[1]) <= 20 else (7 if int(sid.split('-')[1]) <= 23 else (8 if int(sid.split('-')[1]) <= 26 else (9 if int(sid.split('-')[1]) <= 29 else (10 if int(sid.split('-')[1]) <= 32 else 11)))))),
+ "origin": "independent sub-agent given only the property text and its own worktree (round %d)" % (((int(sid.split('-')[1]) - 1) // 3 + 1) if int(sid.split('-')[1]) <= 15 else (6 if int(sid.split('-')[1]) <= 20 else (7 if int(sid.split('-')[1]) <= 23 else (8 if int(sid.split('-')[1]) <= 26 else (9 if int(sid.split('-')[1]) <= 29 else (10 if int(sid.split('-')[1]) <= 32 else (11 if int(sid.split('-')[1]) <= 35 else 12))))))),
 }
 json.dump(meta, open(mp, 'w'), indent=1)
 print(sid, 'FIRED ' + keys if fired else 'MISSED', '| ' + out.strip().splitlines()[-1][:200])
